@@ -128,6 +128,16 @@ def run(ctx):
     I.call(I.getattr(grown, "__iadd__"), [unit], {})
     dict_eq(ctx, "R1", "Hill form after += has the atoms of the sum", I.getattr(I.getattr(grown, "hill"), "atoms"),
             {U[0]: sp.Integer(2), U[2]: sp.Integer(3)}, s_hill)
+    # a formula that is one counted group at top level is reordered like any other
+    grp = I.call(fm, [[(sp.Integer(3), [(sp.Integer(1), U[-1]), (sp.Integer(2), U[0])])]], {})
+    flat = I.call(fm, [{U[-1]: sp.Integer(3), U[0]: sp.Integer(6)}], {})
+    hg, hf = I.getattr(grp, "hill"), I.getattr(flat, "hill")
+    ctx.check(struct(hg) == struct(hf), "R2", "a single counted group (X Y2)3 has the Hill form of X3 Y6",
+              f"{_s(struct(hg), 200)} vs {_s(struct(hf), 200)}", s_hill)
+    # an atom present with count zero stays in the Hill form (the counts are *exactly* those of the formula)
+    zero = I.call(fm, [[(sp.Integer(0), U[0]), (sp.Integer(2), U[1]), (sp.Integer(1), U[-1])]], {})
+    dict_eq(ctx, "R1", "Hill form keeps an atom whose count is zero", I.getattr(I.getattr(zero, "hill"), "atoms"),
+            {U[0]: sp.Integer(0), U[1]: sp.Integer(2), U[-1]: sp.Integer(1)}, s_hill)
     # counts are carried over exactly, whatever their magnitude or number of digits
     xs = sp.symbols("x1:4", positive=True)
     generic = {U[0]: xs[0], U[1]: xs[1], U[-1]: xs[2]}
@@ -137,5 +147,5 @@ def run(ctx):
     got_fine = I.getattr(I.getattr(I.call(fm, [dict(fine)], {}), "hill"), "atoms")
     ctx.check(isinstance(got_fine, dict) and set(got_fine) == set(fine) and all(sp.sympify(got_fine[a]) == fine[a] for a in fine), "R1",
               "Hill form keeps very small, very large and many-digit counts exactly", f"counts {_s(got_fine)} instead of {_s(fine)}", s_hill)
-    ctx.floor("R1", 6); ctx.floor("R2", 13); ctx.floor("R3", 1); ctx.floor("R4", 3)
+    ctx.floor("R1", 7); ctx.floor("R2", 14); ctx.floor("R3", 1); ctx.floor("R4", 3)
     ctx.unit("functions_inlined", len(set(I.calls)))
